@@ -5,7 +5,7 @@ from models import stream, selfcheck
 
 PROPERTY_ID = "C03"
 RULE = ("one-step programs (new [; seek | hook counter preset] ; process): full product of variant x rounds{8,12,20} x key length x "
-        "key pattern x nonce pattern x starting block (incl. 2^32-2, 2^32-1 and, through the hook, 64-bit low/high word boundaries) x "
+        "key pattern x nonce pattern x starting block (incl. 2^32-2, 2^32-1 and, through the hook, 64-bit low/high word boundaries; additionally every start 2^k-1, 2^k-2 so that the increment carries out of every bit position) x "
         "data length {0,1,63,64,65,128,129,193} x data pattern, compared with python models of RFC 8439 / Bernstein / XChaCha / XSalsa; "
         "the same grid is run on the portable ChaCha engine through the hook wrapper; non-trivial = data length > 0; distinct = program text")
 ASSUMPTIONS = ["python keystream models validated by RFC 8439 2.3.2/2.4.2, draft-irtf-cfrg-xchacha 2.2.1/A.3.2, ECRYPT Salsa20 vectors and OpenSSL cross vectors",
@@ -47,11 +47,34 @@ def starts(bits):
     return out
 
 
+def shard_counterbits(arg, tier):
+    """block counter increments across every bit boundary: start at 2^k - 1 and run 129 bytes (carry out of every bit position)"""
+    v, r = arg
+    keylens, nlen, bits = VARIANTS[v]
+    ck = core.Checker(PROPERTY_ID)
+    cases = []
+    key, nonce = pat(5, 0, keylens[0]), pat(7, 3, nlen)
+    st = stream.Stream(v, r, key, nonce)
+    for k in range(1, bits + 1):
+        for s0 in ((1 << k) - 1, ((1 << k) - 2) & ((1 << bits) - 1), (0x5555555555555555 & ((1 << bits) - 1)) | ((1 << k) - 1)):
+            exp = obs_of(st.keystream(s0, 0, 193))
+            cases.append((["cnew s0 %s %d %s %s" % (v, r, P(5, 0, keylens[0]), P(7, 3, nlen)), ("seek s0 %d" if bits == 32 else "setctr64 s0 %d") % s0,
+                           "process_mut s0 %s" % P(0, 0, 193)], ["-", "-", exp], {"n": 193}))
+            if v in ("chacha", "chachao") and k <= 32:
+                mode = 32 if bits == 32 else 64
+                cases.append((["pchacha %d %s %s %d %d 3" % (r, P(5, 0, keylens[0]), P(7, 3, nlen), s0, mode)], [obs_of(st.keystream(s0, 0, 192))], {"n": 192}))
+    ck.run(cases, nontrivial=_nt)
+    ck.stats.states = len(cases)
+    return ck.stats
+
+
 def shards(tier):
     sh = []
     for v in VARIANTS:
         for r in (8, 12, 20):
             sh.append(("shard_ctx", (v, r)))
+            if r == 20 or tier == "thorough":
+                sh.append(("shard_counterbits", (v, r)))
     for r in (8, 12, 20):
         sh.append(("shard_portable", r))
     return sh
